@@ -1,6 +1,8 @@
 (* C15 — Custom drivers: Render folds the tree with exactly the supplied functions. *)
 Require Import Parser Render Driver Shape.
-Require Import Custom.
+Require Import Api.
+Require Lex.
+Require Import Custom RenderFold TablesTie.
 From Coq Require Import List String.
 
 (* for an ARBITRARY table of render functions (any functions, any subset of operators): if some node reachable through
@@ -9,4 +11,27 @@ Theorem C15_missing_function_fails : forall (o2 : oracle2) (fns : operator -> op
   missing fns e = true -> forall s : string, render_with o2 fns e <> Ret (s, None).
 Proof. exact missing_fails. Qed.
 
+(* the package's postgres Render is that fold, instantiated with the postgres table; and that table is the one generated from
+   base.go `Shared` overlaid by postgresql.go (TablesTie.pg_fn_tie: same functions at the same operators, none for FUZZY/BOOST) *)
+Theorem C15_postgres_render_is_the_fold : forall (o2 : oracle2) (e : expr), render o2 e = render_with o2 (pg_fn o2) e.
+Proof. exact render_is_fold. Qed.
+Theorem C15_postgres_table_is_the_generated_one : forall (o2 : oracle2) op l r,
+  match pg_fn o2 op, postgres_table op with
+  | Some f, Some id => f l r = fn_of_id o2 id l r
+  | None, None => True
+  | _, _ => False
+  end.
+Proof. exact pg_fn_tie. Qed.
+
+(* a FUZZY or BOOST node anywhere in the tree: Render never succeeds; hence ToPostgres fails on every query containing one *)
+Theorem C15_fuzzy_boost_unsupported : forall (o2 : oracle2) (e : expr), has_fb e = true -> forall s, render o2 e <> Ret (s, None).
+Proof. exact fuzzy_boost_unsupported. Qed.
+Theorem C15_to_postgres_rejects_fuzzy_boost : forall o o2 cl df q e, Api.parse o cl df q = PTree e -> has_fb e = true ->
+  forall s, Api.to_postgres o o2 cl df q <> Ret (s, None).
+Proof. intros o o2 cl df q e P H s. unfold Api.to_postgres. rewrite P. exact (fuzzy_boost_unsupported o2 e H s). Qed.
+
 Print Assumptions C15_missing_function_fails.
+Print Assumptions C15_postgres_render_is_the_fold.
+Print Assumptions C15_postgres_table_is_the_generated_one.
+Print Assumptions C15_fuzzy_boost_unsupported.
+Print Assumptions C15_to_postgres_rejects_fuzzy_boost.
